@@ -48,12 +48,16 @@ def faults_for(case):
     out += [{"fault": f} for f in ("no_method", "no_solver", "signal_objective", "nonscalar_objective",
                                    "set_value_nonparam", "set_initial_param", "set_initial_unknown",
                                    "bad_grid_constraint", "bad_grid_sample", "foreign_symbol_constraint",
-                                   "foreign_symbol_ode", "constant_false", "horizon_in_ode", "set_value_variable")]
+                                   "foreign_symbol_ode", "constant_false", "horizon_in_ode", "set_value_variable",
+                                   "bad_grid_integral", "bad_grid_sum", "bad_grid_variable", "bad_grid_parameter")]
     if "fixed" in case.get("T", {}) and "fixed" in case.get("t0", {}):
         # constraints on the (fixed) horizon symbols that are false: constant only after placeholder substitution
         out += [{"fault": "horizon_false_T"}, {"fault": "horizon_false_tf"}, {"fault": "horizon_false_t"}]
+    if kind in ("MS", "SS", "DC"):
+        # two stages cloned from a template with a parameter; only one clone (or only the template) gets a value
+        out += [{"fault": "missing_value_clone", "which": w} for w in ("second", "first", "template_only_ok")]
     if kind in ("MS", "SS"):
-        out += [{"fault": "alg_explicit"}, {"fault": "roots_shooting"}]
+        out += [{"fault": "alg_explicit"}, {"fault": "roots_shooting"}, {"fault": "alg_eq_no_var"}]
     if kind == "Spline":
         out += [{"fault": "spline_nonlinear"}, {"fault": "spline_time_varying"}]
     return out
@@ -67,16 +71,20 @@ def ispec_coq(case, f):
     fl = f.get("fault") if f else None
     rule = [not (fl == "missing_rule" and f["pos"] == i) for i in range(ns)]
     val = [not (fl == "missing_value" and f["pos"] == i) for i in range(npar)]
+    if fl == "missing_value_clone":
+        # the multi-stage OCP has one parameter instance per clone
+        val = {"second": [True, False], "first": [False, True], "template_only_ok": [True, True]}[f["which"]]
     meth = "None" if fl == "no_method" else "(Some %s)" % {"MS": "KMS", "SS": "KSS", "DC": "KDC", "Spline": "KSpline"}[kind]
     nobj = len(case["objective"])
-    nalg = len(case.get("alg", [])) + (1 if fl == "alg_explicit" else 0)
+    nalg = len(case.get("alg", [])) + (1 if fl in ("alg_explicit", "alg_eq_no_var") else 0)
     return "(mkI %s %s true %s %s %s %s %s %s %s %s %s %d%%nat %s %s %d%%nat %s)" % (
         b(rule), b(val), meth, "false" if fl == "no_solver" else "true",
         b([True] * nobj + ([False] if fl == "signal_objective" else [])),
         b([True] * nobj + ([False] if fl == "nonscalar_objective" else [])),
         b([False] if fl in ("set_value_nonparam", "set_value_variable") else []),
         b([False] if fl in ("set_initial_param", "set_initial_unknown") else []),
-        b([True] + ([False] if fl in ("bad_grid_constraint", "bad_grid_sample") else [])),
+        b([True] + ([False] if fl in ("bad_grid_constraint", "bad_grid_sample", "bad_grid_integral", "bad_grid_sum",
+                                       "bad_grid_variable", "bad_grid_parameter") else [])),
         b([True] + ([False] if fl in ("foreign_symbol_constraint", "foreign_symbol_ode") else [])),
         b([True] + ([False] if fl in ("constant_false", "horizon_false_T", "horizon_false_tf", "horizon_false_t") else [])),
         nalg, "true" if kind in ("MS", "SS") else "false",
@@ -122,6 +130,27 @@ def worker(args):
                     c["ode"][1] = ["+", ["s", "u", 0], ["s", "t"]]
                 c["_fault"] = f
                 out["phase"] = "declaration"
+                if fl == "missing_value_clone":
+                    ocp = rockit.Ocp()
+                    tpl = rockit.Stage(T=1)
+                    x_ = tpl.state(); u_ = tpl.control(); q_ = tpl.parameter()
+                    tpl.set_der(x_, u_ * q_)
+                    tpl.add_objective(tpl.integral(u_ ** 2) + tpl.at_tf(x_) ** 2)
+                    tpl.subject_to(tpl.at_t0(x_) == 1)
+                    tpl.method(CS.make_method(dict(c["method"], grid={"class": "Uniform"}), rockit, c))
+                    if f["which"] == "template_only_ok":
+                        tpl.set_value(q_, 2.0)          # a value on the template is inherited by every clone
+                    s1 = ocp.stage(tpl, t0=0)
+                    s2 = ocp.stage(tpl, t0=1)
+                    if f["which"] == "second":
+                        s1.set_value(q_, 0.5)
+                    elif f["which"] == "first":
+                        s2.set_value(q_, 0.5)
+                    ocp.solver("ipopt", {"ipopt.print_level": 0, "print_time": False})
+                    out["phase"] = "solve"
+                    ocp.solve()
+                    out["raised"] = False
+                    raise Reached()
                 B = build_with_fault(c, rockit, f)
                 out["phase"] = "solve"
                 if fl == "bad_grid_sample":
@@ -196,6 +225,20 @@ def build_with_fault(c, rockit, f):
     elif fl == "set_value_variable":
         v_ = B.objs["v"][0] if B.objs["v"] else ocp.variable()
         ocp.set_value(v_, 1)
+    elif fl == "bad_grid_integral":
+        ocp.add_objective(ocp.integral(x0 ** 2, grid="foo"))
+    elif fl == "bad_grid_sum":
+        ocp.add_objective(ocp.sum(x0 ** 2, grid="foo"))
+    elif fl == "bad_grid_variable":
+        w_ = ocp.variable(grid="foo")
+        ocp.add_objective(ocp.at_tf(x0) * w_ if False else w_ ** 2)
+    elif fl == "bad_grid_parameter":
+        q_ = ocp.parameter(grid="foo")
+        ocp.set_value(q_, 1)
+        ocp.add_objective(q_ * ocp.at_tf(x0))
+    elif fl == "alg_eq_no_var":
+        # an algebraic equation without any algebraic variable, with an explicit scheme
+        ocp.add_alg(x0 - 5)
     elif fl == "horizon_false_T":
         ocp.subject_to(ocp.T >= float(Fr(c["T"]["fixed"])) + 4)
     elif fl == "horizon_false_tf":
